@@ -20,6 +20,22 @@ func (e Engine) Gen(prop, tier string, r *detsim.Rand) interface{} {
 	return GenC10(r, tier, e.Shape)
 }
 
+// GenIndexed: the even run indices below 2*SysC09Total are the systematic
+// corpus of C09 (every short operation sequence), spread over all workers.
+func (e Engine) GenIndexed(prop, tier string, idx uint64) interface{} {
+	if prop != "C09" || idx%2 != 0 || idx/2 >= SysC09Total(tier) {
+		return nil
+	}
+	return SysC09(tier, idx/2)
+}
+
+func (Engine) SystematicTotal(prop, tier string) uint64 {
+	if prop != "C09" {
+		return 0
+	}
+	return SysC09Total(tier)
+}
+
 func (Engine) Decode(raw json.RawMessage) (interface{}, error) {
 	p := &Plan{}
 	if err := json.Unmarshal(raw, p); err != nil {
@@ -59,6 +75,9 @@ func (Engine) Run(plan interface{}, ch detsim.Chooser) *detsim.RunReport {
 		rep.Counters.Add("context_switches", int64(r.Switches))
 		rep.Counters.Add("ops", int64(len(o.Hist)))
 		rep.Counters.Add("shape_"+p.Shape, 1)
+		if p.Sys {
+			rep.Counters.Add("systematic_cases_run", 1)
+		}
 		if p.Cfg.PYields {
 			rep.Counters.Add("runs_with_pyields", 1)
 		}
